@@ -3666,6 +3666,10 @@ class CacheDataset(Dataset):
             item = self.keys().index(item)
 
         if isinstance(item, numbers.Integral):
+            # numpy integers (e.g. from a slice of this dataset) must address
+            # the same cache entry as the equal python int (matters for the
+            # disk cache, which serializes the key).
+            item = int(item)
             if item < 0:
                 # Cache under the non-negative index, otherwise ds[-1] and
                 # ds[len(ds) - 1] are computed and cached independently.
